@@ -22,6 +22,7 @@ type LayoutCfg struct {
 	DoclessIface   float64
 	NotationsIface bool
 	SameNames      bool // same method name + same :recv identifier under different receiver types (C17)
+	EmptyIface     bool // converter interfaces without any method (placeholder, all methods commented out)
 }
 
 // LayoutGen generates one layout scenario.
@@ -281,6 +282,9 @@ func GenLayout(r *rand.Rand, cfg LayoutCfg, id, pkgRel string) *Scenario {
 		if cfg.MaxMethods > 3 && g.chance(0.15) {
 			nm = 1 + r.Intn(cfg.MaxMethods)
 		}
+		if cfg.EmptyIface && sameName == "" && g.chance(0.1) {
+			nm = 0 // a converter interface with no methods yields no functions and disturbs nothing
+		}
 		style := "return"
 		for _, n := range it.Notations {
 			if n.Name == "style" {
@@ -362,7 +366,11 @@ func GenLayout(r *rand.Rand, cfg LayoutCfg, id, pkgRel string) *Scenario {
 				}
 			}
 		}
-		if oneLine {
+		if nm == 0 && g.chance(0.5) {
+			fmt.Fprintf(&g.sb, "type %s interface{}\n", it.Name)
+		} else if nm == 0 {
+			fmt.Fprintf(&g.sb, "type %s interface {\n\t// %s\n\t// Later(*NoSuchA) *NoSuchB\n}\n", it.Name, g.c("all methods commented out "+it.Name))
+		} else if oneLine {
 			fmt.Fprintf(&g.sb, "type %s interface { %s }\n", it.Name, body.String())
 			g.vec = append(g.vec, fmt.Sprintf("oneline%d", len(body.String())))
 		} else {
